@@ -25,7 +25,7 @@ pub fn judge(h: &History, recs: &[StepRec]) -> Result<(usize, bool), Failure> {
             let _ = p;
             break;
         }
-        if matches!(r.step, Step::Join(_) | Step::JoinAbp) {
+        if matches!(r.step, Step::Join(_) | Step::JoinAbp | Step::SetSession { .. }) {
             last = None;
             expired = false;
         }
